@@ -30,6 +30,12 @@ pub enum Ev {
     NotifyAll { tid: usize, cv: usize },
     /// the timed wait of this thread was ended by the clock (which now shows `clock_ns`)
     Fire { tid: usize, clock_ns: u64 },
+    /// an atomic counter was changed (`new` is the value after the operation) or read
+    Atomic { tid: usize, id: usize, op: &'static str, new: usize, clock_ns: u64 },
+    /// a library thread was started by `thread_spawn` (child = its id)
+    Spawned { tid: usize, child: usize, clock_ns: u64 },
+    /// the thread's closure returned
+    Exited { tid: usize, clock_ns: u64 },
     /// a marker placed by the harness (no scheduling point)
     Mark { tid: usize, text: String, clock_ns: u64 },
 }
@@ -62,6 +68,8 @@ struct Sched {
     replay: Option<Vec<u8>>,
     steps: usize,
     trace: Vec<Ev>,
+    /// the thread that must not be preempted (see `without_preemption`)
+    nopreempt: Option<usize>,
 }
 struct Abort;
 static S: SMutex<Option<Sched>> = SMutex::new(None);
@@ -153,6 +161,10 @@ fn describe(s: &Sched) -> String {
 fn reschedule(mut g: SGuard<'static, Option<Sched>>, me: usize, wait: bool) -> Option<SGuard<'static, Option<Sched>>> {
     {
         let s = g.as_mut().unwrap();
+        if wait && s.nopreempt == Some(me) && s.th[me].st == St::Runnable {
+            // inside `without_preemption`: a pure yield is skipped
+            return Some(g);
+        }
         match pick(s) {
             Some(n) => s.cur = n,
             None => {
@@ -218,6 +230,10 @@ pub fn spawn<F: FnOnce() + Send + 'static>(f: F) -> JoinHandle {
         let aborted = matches!(&r, Err(e) if e.is::<Abort>());
         let mut g = lock_s();
         if let Some(s) = g.as_mut() {
+            if r.is_ok() {
+                let c = s.clock;
+                s.trace.push(Ev::Exited { tid, clock_ns: c });
+            }
             s.th[tid].st = St::Done;
             wake_joiners(s, tid);
             if !aborted && !s.abort {
@@ -257,6 +273,7 @@ pub fn run<F: FnOnce()>(seed: u64, replay: Option<Vec<u8>>, f: F) -> Outcome {
             replay,
             steps: 0,
             trace: vec![],
+            nopreempt: None,
         });
     }
     TID.with(|t| t.set(0));
@@ -528,6 +545,88 @@ impl Instant {
                 Some(s) => Duration::from_nanos(s.clock - *t),
                 None => Duration::from_nanos(0),
             },
+        }
+    }
+}
+
+/// `std::thread::spawn` for library code: a controlled thread starts a controlled thread.
+pub fn thread_spawn<F: FnOnce() + Send + 'static>(f: F) {
+    if me() == NONE {
+        std::thread::spawn(f);
+        return;
+    }
+    let parent = me();
+    let h = spawn(f);
+    {
+        let mut g = lock_s();
+        if let Some(s) = g.as_mut() {
+            let c = s.clock;
+            s.trace.push(Ev::Spawned { tid: parent, child: h.tid, clock_ns: c });
+        }
+    }
+    // detached: the run ends when every controlled thread is done or blocked for ever
+    std::mem::forget(h);
+}
+
+/// `AtomicUsize` whose operations are recorded (and are scheduling points) for controlled threads.
+pub struct AtomicUsize {
+    id: usize,
+    inner: std::sync::atomic::AtomicUsize,
+}
+static NEXT_ATOMIC: std::sync::atomic::AtomicUsize = std::sync::atomic::AtomicUsize::new(0);
+impl AtomicUsize {
+    pub fn new(v: usize) -> AtomicUsize {
+        AtomicUsize { id: NEXT_ATOMIC.fetch_add(1, std::sync::atomic::Ordering::SeqCst), inner: std::sync::atomic::AtomicUsize::new(v) }
+    }
+    fn point(&self, op: &'static str, new: usize) {
+        let m = me();
+        if m == NONE {
+            return;
+        }
+        let mut g = lock_s();
+        if g.is_none() {
+            return;
+        }
+        {
+            let s = g.as_mut().unwrap();
+            let c = s.clock;
+            s.trace.push(Ev::Atomic { tid: m, id: self.id, op, new, clock_ns: c });
+        }
+        // a scheduling point AFTER the operation: other threads may run before this one goes on
+        drop(reschedule(g, m, true));
+    }
+    pub fn load(&self, o: std::sync::atomic::Ordering) -> usize {
+        self.inner.load(o)
+    }
+    pub fn store(&self, v: usize, o: std::sync::atomic::Ordering) {
+        self.inner.store(v, o);
+        self.point("store", v);
+    }
+    pub fn fetch_add(&self, v: usize, o: std::sync::atomic::Ordering) -> usize {
+        let old = self.inner.fetch_add(v, o);
+        self.point("add", old.wrapping_add(v));
+        old
+    }
+    pub fn fetch_sub(&self, v: usize, o: std::sync::atomic::Ordering) -> usize {
+        let old = self.inner.fetch_sub(v, o);
+        self.point("sub", old.wrapping_sub(v));
+        old
+    }
+}
+
+/// Runs `f` without yielding to other controlled threads at its scheduling points (it may still block).
+/// Used by the harness to make a multi-step operation atomic with respect to the explored schedule.
+pub fn without_preemption<F: FnOnce()>(f: F) {
+    let m = me();
+    if m != NONE {
+        if let Some(s) = lock_s().as_mut() {
+            s.nopreempt = Some(m);
+        }
+    }
+    f();
+    if m != NONE {
+        if let Some(s) = lock_s().as_mut() {
+            s.nopreempt = None;
         }
     }
 }
